@@ -69,24 +69,32 @@ CanMutB == NoIter /\ bl /\ Room
 
 ------------------------------------------------------------------------------------------
 (* mutators of A *)
-OpInsert(e) == /\ CanMutA /\ Len(a) < MaxLen /\ StepA("insert", <<e>>, TRUE, Ins(a, e))
-OpRemove(e) == LET r == Rem(a, e) IN
-               /\ CanMutA /\ StepA("remove", <<e>>, r.ret, r.s)          \* the returned element is the caller's
+(* Object classes (round 4: mixed-class elements).  Elements and probes are handed over as objects of one of two
+   comparison-compatible classes: 1 = spif_str, 2 = spif_url (a url IS a str and compares by its text).  S: the vector is
+   ordered and searched "by object comparison", so the class of an argument or of a stored element must never show in
+   any result; the class arguments below do not enter the next-state or the return value at all - that IS the
+   specification.  (Only while no copy is live may an argument be a url: model bound.) *)
+Classes == 1 .. 2
+ClsOK(c) == c \in Classes /\ (IF c = 1 THEN TRUE ELSE ~bl)
+OpInsert(e, c) == /\ CanMutA /\ ClsOK(c) /\ Len(a) < MaxLen /\ StepA("insert", <<e, c>>, TRUE, Ins(a, e))
+OpRemove(e, c) == LET r == Rem(a, e) IN
+               /\ CanMutA /\ ClsOK(c) /\ StepA("remove", <<e, c>>, r.ret, r.s)          \* the returned element is the caller's
 \* Aliased argument (round 3): the probe IS the stored element (as find() handed it out); it comes back to the caller.
 OpRemoveOwn(e) == LET r == Rem(a, e) IN
                /\ CanMutA /\ Present(a, e) /\ StepA("remove_own", <<e>>, r.ret, r.s)
 \* Macro step for the size sweeps (round 3): insert(lo), insert(lo+st), .. <= hi in that order.  Only offered when every
 \* stored element is below lo, so the result is the plain concatenation (FillLaw ties it to Ins).
 FillSeq(lo, hi, st) == [i \in 1 .. ((hi - lo) \div st + 1) |-> lo + (i - 1) * st]
-OpFill(lo, hi, st) == /\ CanMutA /\ lo >= 1 /\ lo <= hi /\ st >= 1 /\ (IF a = <<>> THEN TRUE ELSE a[Len(a)] < lo)
+\* mix: 1 all elements are strs, 2 all are urls, 3 odd values are urls and even values strs.
+OpFill(lo, hi, st, mix) == /\ CanMutA /\ mix \in 1 .. 3 /\ (IF mix = 1 THEN TRUE ELSE ~bl) /\ lo >= 1 /\ lo <= hi /\ st >= 1 /\ (IF a = <<>> THEN TRUE ELSE a[Len(a)] < lo)
                       /\ Len(a) + Len(FillSeq(lo, hi, st)) <= MaxLen
-                      /\ StepA("fill", <<lo, hi, st>>, Len(FillSeq(lo, hi, st)), a \o FillSeq(lo, hi, st))
+                      /\ StepA("fill", <<lo, hi, st, mix>>, Len(FillSeq(lo, hi, st)), a \o FillSeq(lo, hi, st))
 OpDone      == /\ CanMutA /\ StepA("done", <<>>, TRUE, <<>>)             \* C06: empty and reusable
 
 (* queries on A: enabled in every state, also while an iterator or a copy is alive *)
 Anytime       == TRUE
-OpFind(e)     == /\ Anytime /\ StepQ("find", <<e>>, FindRes(a, e))
-OpContains(e) == /\ Anytime /\ StepQ("contains", <<e>>, Present(a, e))
+OpFind(e, c)     == /\ Anytime /\ ClsOK(c) /\ StepQ("find", <<e, c>>, FindRes(a, e))
+OpContains(e, c) == /\ Anytime /\ ClsOK(c) /\ StepQ("contains", <<e, c>>, Present(a, e))
 OpCount       == /\ Anytime /\ StepQ("count", <<>>, Len(a))
 OpToArray     == /\ Anytime /\ StepQ("to_array", <<>>, a)
 
@@ -110,10 +118,12 @@ OpAdopt      == /\ NoIter /\ bl /\ Step("adopt", <<>>, TRUE, b, <<>>, FALSE, it)
 
 Init == a = <<>> /\ b = <<>> /\ bl = FALSE /\ it = NIL
 
-Next == \/ \E e \in Elems : OpInsert(e) \/ OpBInsert(e)
-        \/ \E e \in Probes : OpRemove(e) \/ OpFind(e) \/ OpContains(e) \/ OpBRemove(e) \/ OpBFind(e)
+Next == \/ \E e \in Elems : OpBInsert(e)
+        \/ \E e \in Elems, c \in Classes : OpInsert(e, c)
+        \/ \E e \in Probes : OpBRemove(e) \/ OpBFind(e)
+        \/ \E e \in Probes, c \in Classes : OpRemove(e, c) \/ OpFind(e, c) \/ OpContains(e, c)
         \/ \E e \in Elems : OpRemoveOwn(e)
-        \/ \E lo \in Elems, hi \in Elems, st \in 1 .. 2 : (st = 1 \/ hi - lo >= 2) /\ OpFill(lo, hi, st)
+        \/ \E lo \in Elems, hi \in Elems, st \in 1 .. 2, mix \in {1, 3} : (st = 1 \/ hi - lo >= 2) /\ OpFill(lo, hi, st, mix)
         \/ OpDone \/ OpCount \/ OpToArray
         \/ OpIterNew \/ OpIterHasNext \/ OpIterNext \/ OpIterDel
         \/ OpDup \/ OpDelB \/ OpAdopt
